@@ -211,6 +211,11 @@ def _run_exact(case, ctx):
             ub[k_] = (max(lo_, dflt[k_][0]), min(hi_, dflt[k_][1]))
         extra["param_bounds"] = ub
         ctx.count("exact_variants", "user-bounds-around-the-generating-parameters")
+    shared_opt = None
+    if case["seed"] % 4 == 1:
+        # the user keeps one dictionary of optimiser options for all fits of a session
+        shared_opt = {"max_nfev": 4000}
+        extra["optimization_params"] = shared_opt
     res = _call(pygaps.ModelIsotherm, pressure=list(p), loading=list(l), model=name, material="verif-c12", adsorbate=ads, **tkw, **units, **extra)
     ctx.case(["exact", name, dg])
     if res[0] != "ok":
@@ -229,6 +234,27 @@ def _run_exact(case, ctx):
         ctx.violation(_not_reproduced_key(name, iso, dev, rng), "a fit to data generated exactly from the same model does not reproduce the data", P=P, fitted=dict(iso.model.params), max_dev=dev, range=rng,
                       rmse=iso.model.rmse, npoints=len(p))
     _check_logged(ctx, iso, name, p, l)
+    if shared_opt is not None and res[0] == "ok":
+        ctx.count("exact_variants", "options-dictionary-shared-by-two-fits")
+        if shared_opt != {"max_nfev": 4000}:
+            ctx.violation("fit/options-dictionary-modified", "the fit changed the caller's dictionary of optimiser options", now=sorted(map(str, shared_opt)))
+        P2 = _fit_params(name, r)
+        l2 = numpy.asarray(GM.make_model(name, P2, temperature=T).loading(p), dtype=float)
+        if numpy.all(numpy.isfinite(l2)) and l2.max() - l2.min() > 0 and l2.min() >= 0:
+            ex2 = {k_: v_ for k_, v_ in extra.items() if k_ != "param_bounds"}
+            res2 = _call(pygaps.ModelIsotherm, pressure=list(p), loading=list(l2), model=name, material="verif-c12", adsorbate=ads, **tkw, **units, **ex2)
+            ctx.case(["exact-second-fit-same-options", name, dg])
+            ctl = _call(pygaps.ModelIsotherm, pressure=list(p), loading=list(l2), model=name, material="verif-c12", adsorbate=ads, **tkw, **units, **dict(ex2, optimization_params={"max_nfev": 4000}))
+            if res2[0] == "ok" and ctl[0] == "ok":
+                pred2 = numpy.asarray(res2[1].loading_at(p), dtype=float)
+                rng2 = l2.max() - l2.min()
+                dev2 = float(numpy.max(numpy.abs(pred2 - l2)))
+                devc = float(numpy.max(numpy.abs(numpy.asarray(ctl[1].loading_at(p), dtype=float) - l2)))
+                # (judged against the same fit given a fresh dictionary: whether this model's fit of these data converges at all is
+                # the business of the first clause)
+                if dev2 > 1e-5 * rng2 and devc <= 1e-5 * rng2:
+                    ctx.violation(_not_reproduced_key(name, res2[1], dev2, rng2) + "/second-fit-with-the-same-options", "a second fit given the same options dictionary does not reproduce its own (exact) data", P=P2,
+                                  fitted=dict(res2[1].model.params), max_dev=dev2, range=rng2, first_fit=P)
     if r.random() < 0.04:
         ctx.sample({"kind": "exact", "model": name, "generating": P, "fitted": dict(iso.model.params), "rmse": float(iso.model.rmse)})
 
@@ -504,7 +530,19 @@ def _run_from_model(case, ctx):
         GM.make_model(name, _fit_params(name, gen.rng(case["seed"], "other")), temperature=T + 41.5)
     except Exception:
         pass
-    for how, kw in (("default-grid", {}), ("pressure-points", {"pressure_points": list(p)})):
+    hows = [("default-grid", {}), ("pressure-points", {"pressure_points": list(p)})]
+    if units["pressure_mode"] == "absolute":
+        # the pressures of a measured isotherm serve as the grid - one stored in the model isotherm's units, one in another unit
+        # (whatever pressures that gives: the generated points lie on the model)
+        try:
+            ref_kw = dict(material="verif-c12-ref", adsorbate=ads, temperature=Tst, **units)
+            ref_same = pygaps.PointIsotherm(pressure=list(p), loading=list(numpy.linspace(0.1, 1.0, len(p))), branch=mbranch, **ref_kw)
+            ref_other = pygaps.PointIsotherm(pressure=list(p), loading=list(numpy.linspace(0.1, 1.0, len(p))), branch=mbranch, **ref_kw)
+            ref_other.convert_pressure(mode_to="absolute", unit_to="kPa" if units["pressure_unit"] != "kPa" else "torr")
+            hows += [("reference-isotherm/same-units", {"pressure_points": ref_same}), ("reference-isotherm/other-pressure-unit", {"pressure_points": ref_other})]
+        except Exception:
+            pass
+    for how, kw in hows:
         res = _call(pygaps.PointIsotherm.from_modelisotherm, miso, **kw)
         ctx.case(["from_model", name, how, case["seed"]])
         if res[0] != "ok":
